@@ -1,11 +1,12 @@
-// link-time stand-ins used by reduced harness builds (tsan flavour: pool only)
+// link-time stand-ins used by reduced harness builds (tsan flavour): weak definitions, overridden
+// by the real translation units when they are part of the build
 #include "common.hpp"
 namespace vh {
-__attribute__((weak)) std::string run_flow_profile(const vj::value&) { throw std::runtime_error("flow: not in this build"); __attribute__((weak)) std::string run_grid_case(const vj::value&) { throw std::runtime_error("grid: not in this build"); }
-}
+__attribute__((weak)) std::string run_flow_profile(const vj::value&) { throw std::runtime_error("flow: not in this build"); }
 __attribute__((weak)) std::string run_flow_rook(const vj::value&) { throw std::runtime_error("flow: not in this build"); }
 __attribute__((weak)) std::string run_flow_queen(const vj::value&) { throw std::runtime_error("flow: not in this build"); }
 __attribute__((weak)) std::string run_flow_bishop(const vj::value&) { throw std::runtime_error("flow: not in this build"); }
 __attribute__((weak)) std::string run_flow_queen_nc(const vj::value&) { throw std::runtime_error("flow: not in this build"); }
 __attribute__((weak)) std::string run_flow_mesh(const vj::value&) { throw std::runtime_error("flow: not in this build"); }
+__attribute__((weak)) std::string run_grid_case(const vj::value&) { throw std::runtime_error("grid: not in this build"); }
 }
